@@ -48,6 +48,7 @@ void h_rwlock_new (void)
 	PRWLock *l = p_rwlock_new ();
 	if (l == NULL) { OBL (g_alloc_failed && g_allocs == g_frees && g_mnew == g_mfree && g_cnew == g_cfree, "failed p_rwlock_new: NULL, every partial resource released exactly once"); CANARY ("new failed"); return; }
 	OBL (l->mutex != NULL && l->read_cv != NULL && l->write_cv != NULL, "a lock object is complete");
+	OBL (l->active_threads == 0 && l->waiting_threads == 0, "a new lock is free and has no waiters (the initial state the C02 monitor invariant starts from)");
 	p_rwlock_free (l);
 	OBL (g_allocs == g_frees && g_mnew == g_mfree && g_cnew == g_cfree, "new/free leaves nothing");
 	CANARY ("new/free");
